@@ -6,6 +6,9 @@
  *   socket_real sigdata <4|6> <T ms>      data arrives at 0.8 T of a wait with timeout T while signals come every T/5
  *   socket_real flags <4|6>
  *   socket_real gone  <4|6>
+ *   socket_real udpq  <seed> <4|6>        several datagrams (two senders, lengths including 0) queued before the first receive,
+ *                                          buffers shorter / equal / longer, with and without an address result; then a connected
+ *                                          datagram socket whose peer port is closed: the wait is woken by POLLERR alone
  * prints one line: `ok …`, `skip <why>` or `FAIL <what>` (exit 0 / 0 / 1). */
 #define _GNU_SOURCE
 #include <plibsys.h>
@@ -206,6 +209,83 @@ static int t_udp (unsigned long long seed, int fam, int st) {
 	return 0;
 }
 
+/* ---------------------------------------------------------------- udpq */
+static int t_udpq (unsigned long long seed, int fam) {
+	PError *err = NULL;
+	alarm (25);                                      /* a busy loop / hang inside the library ends the run (SIGALRM, default action) */
+	PSocket *r = p_socket_new (pfam (fam), P_SOCKET_TYPE_DATAGRAM, P_SOCKET_PROTOCOL_UDP, &err);
+	PSocket *s[2];
+	s[0] = p_socket_new (pfam (fam), P_SOCKET_TYPE_DATAGRAM, P_SOCKET_PROTOCOL_UDP, &err);
+	s[1] = p_socket_new (pfam (fam), P_SOCKET_TYPE_DATAGRAM, P_SOCKET_PROTOCOL_UDP, &err);
+	if (!r || !s[0] || !s[1]) { if (fam == 6) SKIP ("no IPv6 socket"); FAILF ("socket"); }
+	PSocketAddress *a0 = p_socket_address_new (loop_addr (fam), 0);
+	if (!a0 || !p_socket_bind (r, a0, FALSE, &err) || !p_socket_bind (s[0], a0, FALSE, &err) || !p_socket_bind (s[1], a0, FALSE, &err)) { if (fam == 6) SKIP ("::1 unavailable"); FAILF ("bind"); }
+	p_socket_set_buffer_size (r, P_SOCKET_DIRECTION_RCV, 262144, NULL);
+	PSocketAddress *ra = p_socket_get_local_address (r, &err);
+	PSocketAddress *sa[2] = { p_socket_get_local_address (s[0], &err), p_socket_get_local_address (s[1], &err) };
+	PSocketAddress *dst = p_socket_address_new (loop_addr (fam), p_socket_address_get_port (ra));
+	p_socket_set_timeout (r, 3000);
+	static const int len[] = { 0, 1, 100, 0, 1400, 7, 3000, 0, 0, 2, 64, 1 };
+	static const int bl[]  = { 8, 1,  50, 4, 1400, 16, 4000, 1, 9, 1, 65, 3000 };
+	enum { N = sizeof len / sizeof *len };
+	static char dg[N][4096]; char buf[8192];
+	for (int round = 0; round < 2; round++) {        /* round 0: blocking receiver with timeout, round 1: non-blocking receiver */
+		for (int i = 0; i < N; i++) {
+			for (int k = 0; k < len[i]; k++) dg[i][k] = (char) stream_byte (seed + (unsigned) i + 31u * (unsigned) round, (unsigned long long) k);
+			err = NULL;
+			pssize w = p_socket_send_to (s[i % 2], dst, dg[i], (psize) len[i], &err);
+			if (w != len[i]) { if (err) bad_native ("send_to", err); FAILF ("send_to of a %d-byte datagram returned %zd (code %d native %d)", len[i], (ssize_t) w, err ? p_error_get_code (err) : 0, err ? p_error_get_native_code (err) : 0); }
+		}
+		p_socket_set_blocking (r, round == 0);
+		if (round == 1) usleep (20000);
+		for (int i = 0; i < N; i++) {
+			PSocketAddress *from = NULL; int want_addr = (i % 3) != 2;
+			memset (buf, 0x5a, sizeof buf); err = NULL;
+			pssize g = p_socket_receive_from (r, want_addr ? &from : NULL, buf, (psize) bl[i], &err);
+			if (g < 0) { bad_native ("receive_from", err); FAILF ("receive_from #%d: code=%d native=%d", i, p_error_get_code (err), p_error_get_native_code (err)); }
+			int want = len[i] < bl[i] ? len[i] : bl[i];
+			if (g != want) FAILF ("queued datagram #%d (%d bytes) into a buffer of %d: returned %zd, want %d", i, len[i], bl[i], (ssize_t) g, want);
+			if (memcmp (buf, dg[i], (size_t) want) != 0) FAILF ("queued datagram #%d: bytes differ (not the %d-th datagram sent)", i, i);
+			if ((unsigned char) buf[bl[i]] != 0x5a) FAILF ("queued datagram #%d: wrote past buflen", i);
+			if (want_addr && (!from || !same_addr (from, sa[i % 2]))) FAILF ("queued datagram #%d: receive_from did not report its sender", i);
+			if (from) p_socket_address_free (from);
+		}
+		/* nothing left: a cut-off tail must not show up as a datagram */
+		p_socket_set_blocking (r, FALSE); err = NULL;
+		pssize g = p_socket_receive_from (r, NULL, buf, sizeof buf, &err);
+		if (g >= 0 || p_error_get_code (err) != P_ERROR_IO_WOULD_BLOCK) FAILF ("after %d datagrams a further receive_from returned %zd (code %d)", (int) N, (ssize_t) g, err ? p_error_get_code (err) : 0);
+		p_error_free (err);
+	}
+	/* connected datagram socket, nobody on the peer port: the kernel reports the ICMP error as POLLERR (without POLLIN) and
+	 * recv fails with ECONNREFUSED: a genuine error, to be reported at once, neither swallowed nor turned into a time-out */
+	PSocket *tmp = p_socket_new (pfam (fam), P_SOCKET_TYPE_DATAGRAM, P_SOCKET_PROTOCOL_UDP, &err);
+	p_socket_bind (tmp, a0, FALSE, &err);
+	PSocketAddress *ta = p_socket_get_local_address (tmp, &err);
+	PSocketAddress *closed_port = p_socket_address_new (loop_addr (fam), p_socket_address_get_port (ta));
+	p_socket_free (tmp);
+	PSocket *c = p_socket_new (pfam (fam), P_SOCKET_TYPE_DATAGRAM, P_SOCKET_PROTOCOL_UDP, &err);
+	err = NULL;
+	if (!p_socket_connect (c, closed_port, &err)) FAILF ("connect of a datagram socket: code %d native %d", p_error_get_code (err), p_error_get_native_code (err));
+	const int T = 1200; const char *icmp = "not-delivered-here";
+	p_socket_set_timeout (c, T);
+	p_socket_send (c, "x", 1, NULL);
+	usleep (30000);
+	double t0 = now_ms (); err = NULL;
+	pssize k = p_socket_receive (c, buf, 16, &err);
+	double el = now_ms () - t0;
+	if (k >= 0) FAILF ("receive on a datagram socket connected to a closed port returned %zd", (ssize_t) k);
+	if (p_error_get_native_code (err) == ECONNREFUSED) {
+		icmp = "reported";
+		if (p_error_get_code (err) != P_ERROR_IO_CONNECTION_REFUSED) FAILF ("ECONNREFUSED reported with code %d", p_error_get_code (err));
+		if (el >= T) FAILF ("pending socket error reported only after %.0f ms (time-out %d ms)", el, T);
+	} else if (p_error_get_code (err) == P_ERROR_IO_TIMED_OUT) {
+		if (el < T) FAILF ("receive timed out after %.1f ms < T=%d", el, T);
+	} else { bad_native ("receive", err); FAILF ("receive with a pending socket error: code %d native %d", p_error_get_code (err), p_error_get_native_code (err)); }
+	alarm (0);
+	printf ("ok udpq fam=%d datagrams=%d pending_error=%s\n", fam, 2 * (int) N, icmp);
+	return 0;
+}
+
 /* ---------------------------------------------------------------- timed */
 static int t_timed (int fam, int T, int st) {
 	int port; PError *err = NULL; double t0, el; int nchk = 0;
@@ -398,5 +478,6 @@ int main (int argc, char **argv) {
 	if (!strcmp (argv[1], "sigdata") && argc == 4) return t_sigdata (atoi (argv[2]), atoi (argv[3]));
 	if (!strcmp (argv[1], "flags") && argc == 3) return t_flags (atoi (argv[2]));
 	if (!strcmp (argv[1], "gone") && argc == 3) return t_gone (atoi (argv[2]));
+	if (!strcmp (argv[1], "udpq") && argc == 4) { rs = strtoull (argv[2], NULL, 10) + 7; return t_udpq (strtoull (argv[2], NULL, 10), atoi (argv[3])); }
 	return 2;
 }
